@@ -136,7 +136,7 @@ def decorate(rng, it):
         it.attrs.insert(rng.randrange(len(it.attrs) + 1), Attr('dw', metas_body([MNameValue('crate', 'path', P('::derive_where'))])))
     elif r < 0.145:
         # generic arguments in the crate path (second crate option, or instead of the valid one)
-        bad = Attr('dw', metas_body([MNameValue('crate', rng.choice(['path', 'str']), PA(rng.choice(['dw', 'dw::inner']), 1))]))
+        bad = Attr('dw', metas_body([MNameValue('crate', rng.choice(['path', 'str']), PA(rng.choice(['dw', 'dw::inner']), 1, rng.choice(['u8', ''])))]))
         if rng.random() < 0.5:
             it.attrs = [a for a in it.attrs if not (a.kind == 'dw' and a.body.notlist is None and 'crate = ' in a.body.rust_inner())]
         it.attrs.insert(rng.randrange(len(it.attrs) + 1), bad)
